@@ -6,7 +6,7 @@ from rules.c16 import validation
 EXPLAIN = ('ITS execute (params source_chain, message_id, source_address, payload): every effect other than the gateway '
            'consume itself is must-guarded by (R1) the TRUE result of AxelarGatewayMessagingClient.validate_message(self, '
            'source_chain, message_id, source_address, keccak256(payload)) addressed to the stored Gateway (the state-changing '
-           'consume; client arity = gateway entry arity); (R2) message type decoded from the payload == ReceiveFromHub, '
+           'consume; client arity = gateway entry arity), and no entry other than execute acts on a decoded ReceiveFromHub payload; (R2) message type decoded from the payload == ReceiveFromHub, '
            'source_chain == the hub chain constant, a successful strict decode of ReceiveFromHub from the SAME payload, type words decoded strictly (validate = true) for the wrapper and the inner message, and '
            'TrustedChain(decoded origin chain) present; (R3) source_address == stored ItsHubAddress; (R4) token movements '
            'are must-guarded by TokenIdConfigKey(decoded token id) present and by successful decoding of the recipient, the '
